@@ -92,3 +92,9 @@ ledger_prop('C18', ['C18_partial_persistence', 'C18_partial_involved_listed', 'C
             'Coq proof of the partial statement + refutation witness of the full statement (vm_compute) replayed on the real code + differential run',
             'Proved: accounts persist with constant address/insertion date, first usage never increases, committed creates list every involved account with first usage <= effective timestamp, metadata creates the account. REFUTED (witness C18_refuted_revert, known finding): a revert transaction whose effective timestamp precedes an account\'s first usage does not lower it. Tie: model = real stack; monitor computes earliest effective event per account and tags the known revert case.',
             'The full "earliest among all events" statement is false of the unchanged code (known_findings.json: KF-C18-revert-before-first-usage); any other first-usage discrepancy is reported as a violation.')
+
+
+# ---- further properties: one file per group under py/props.d/ (executed in name order, sharing this namespace)
+import glob as _glob, os as _os
+for _f in sorted(_glob.glob(_os.path.join(_os.path.dirname(_os.path.abspath(__file__)), 'props.d', '*.py'))):
+    exec(compile(open(_f).read(), _f, 'exec'))
